@@ -162,6 +162,59 @@ def prove_worker_step(src_root, ex: Explorer):
     ex.run(path, 'worker-step')
 
 
+def prove_worker_exit_atomic(src_root, ex: Explorer):
+    """The last reason is removed (flags become empty) while a NEW request arrives at an arbitrary suspension point of that step
+    (RemoveUser being sent, the UNTRACKED event being emitted, the retry being cancelled).  The worker may end only if the queue is empty
+    at the moment it ends: the emptiness test, the unregistration and the return form one atomic section.  Otherwise the new request sits
+    in the queue of a dead worker and is lost."""
+    def path(ctx: Ctx):
+        it = mk(src_root, ctx)
+        w = mk_world(it, ctx)
+        p = 1 + ctx.choose(7, 'previous-flags')
+        k = ctx.choose(6, 'request-arrives-at-yield')
+        had_retry = ctx.choose(2, 'retry-pending') == 1
+        tu = mk_tracked(it, ctx, w, flags=p, state='TRACKED')
+        tu.attrs['retry_task'] = A.TaskVal(it.aio, None, 'old-retry') if had_retry else None
+        req = new(it, UM, 'TrackingRequest', operation=it.getattr(tu, 'remove_flag'), flag=flag(it, p), handled=A.EventVal(it.aio))
+        other = new(it, UM, 'TrackingRequest', operation=it.getattr(tu, 'add_flag'), flag=flag(it, 1), handled=A.EventVal(it.aio))
+        q = tu.attrs['queue']
+        q.items = [req]
+        n = [0]
+        injected = []
+
+        def on_yield(it2, label):
+            if n[0] == k and not injected:
+                injected.append(label)
+                q.items.append(other)           # track_user() of another caller: put_nowait on the registered entry's queue
+            n[0] += 1
+        it.aio.on_yield = on_yield
+        state = {'returned': False}
+
+        def loop(it2, node, env):
+            try:
+                it2.exec_block(node.body, env)
+            except ContinueEx:
+                pass
+            except ReturnEx:
+                state['returned'] = True
+                state['pending_at_return'] = list(q.items)
+                state['registered_at_return'] = w['mgr'].attrs['_tracked_users'].get('bob') is tu
+                raise
+            raise ReturnEx('<next-iteration>')
+        it.loop_specs[(f'{UM}:UserTrackingManager._tracking_task', 0)] = loop
+        try:
+            run(it, it.getattr(w['mgr'], '_tracking_task'), tu)
+        except PyRaise as pr:
+            ctx.fail('C15.worker.exit-atomic.no-raise', repr(pr.exc))
+            return
+        if not injected:
+            return
+        tag = f'p={p},yield={k}:{injected[0]}{",retry-pending" if had_retry else ""}'
+        ctx.prove(f'C15.worker.exit-atomic[{tag}]', (not state['returned']) or state['pending_at_return'] == [],
+                  f'a request that arrived while the worker was suspended on {injected[0]} is still queued when the worker ends: it is lost')
+    ex.run(path, 'worker-exit-atomic')
+
+
 def prove_registry(src_root, ex: Explorer):
     def callback(ctx: Ctx):
         it = mk(src_root, ctx)
@@ -342,7 +395,7 @@ def prove_transfer_reason(src_root, ex: Explorer, res):
 
 
 def items(src_root, tier):
-    return [('step', None), ('registry', None), ('request', None), ('closed', None), ('scan', None), ('transfer', None)]
+    return [('step', None), ('exit-atomic', None), ('registry', None), ('request', None), ('closed', None), ('scan', None), ('transfer', None)]
 
 
 def run_item(src_root, item, tier):
@@ -352,6 +405,8 @@ def run_item(src_root, item, tier):
     try:
         if kind == 'step':
             prove_worker_step(src_root, ex)
+        elif kind == 'exit-atomic':
+            prove_worker_exit_atomic(src_root, ex)
         elif kind == 'registry':
             prove_registry(src_root, ex)
         elif kind == 'request':
